@@ -4,7 +4,7 @@ from . import corpus
 from . import tracecheck
 from .limbs import num
 
-C03 = {"ThresholdAsConfigured", "StarvingMeansNoFeed", "NotBelowRound1", "FloorAtT", "WithinDemand", "ZeroAfterShutoff", "DemandZeroAfterShutoff",
+C03 = {"ThresholdAsConfigured", "ShutoffAsConfigured", "StarvingMeansNoFeed", "NotBelowRound1", "FloorAtT", "WithinDemand", "ZeroAfterShutoff", "DemandZeroAfterShutoff",
        "DemandNonNeg", "ThresholdInRange"}
 C16 = {"LegalOrder", "SolverOptimal", "ValidatorsPass", "Completed", "PercentFedFiniteNonNeg"}
 
@@ -22,7 +22,11 @@ def run_trace(r):
     hdr.update(T=inp["T"], store=r["lps"][0]["consts"]["store"])
     o = r["job"]["options"]
     tcfg = float(o.get("MINIMUM_PERCENT_FED_BEFORE_NONHUMAN_CONSUMPTION_ALLOWED", 10.0 if "after_10_percent_fed" in str(o.get("shutoff")) else 100.0))
-    ev.append(dict(ev="Start", T=num(inp["T"]), Tcfg=num(tcfg), demF=[num(x, pct) for x in r["demand"]["feed"]],
+    sched = {"immediate": (0, 0), "one_month_delayed_shutoff": (1, 1), "short_delayed_shutoff": (2, 1), "long_delayed_shutoff": (3, 2),
+             "continued": (n, n), "continued_after_10_percent_fed": (n, n), "long_delayed_shutoff_after_10_percent_fed": (12, 6)}
+    # (a "known to fail" combination is run with feed and biofuel shut off immediately: the documented correction)
+    sf_cfg, sb_cfg = (0, 0) if (r.get("flags") or {}).get("patched") else sched.get(str(o.get("shutoff")), (-1, -1))
+    ev.append(dict(ev="Start", T=num(inp["T"]), Tcfg=num(tcfg), shutFcfg=sf_cfg, shutBcfg=sb_cfg, demF=[num(x, pct) for x in r["demand"]["feed"]],
                    demB=[num(x, pct) for x in r["demand"]["biofuel"]], shutF=inp["feed_shutoff"], shutB=inp["biofuel_shutoff"]))
     interp = {i["round"]: i for i in r["interp"]}
     lps = {lp["round"]: lp for lp in r["lps"]}
